@@ -45,8 +45,9 @@ def main():
         env = dict(os.environ)
         env['VERIF_REPO_SRC'] = os.path.join(scratch, 'src')
         env['VERIF_OUT_DIR'] = os.path.join(scratch, 'out')
+        env.setdefault('VERIF_CASE_TIMEOUT', '20')   # a mutant that makes a case spin is abandoned quickly
         proc = subprocess.run([sys.executable, os.path.join(VERIF, 'run.py'), prop, '--tier', tier, '--no-minimise'],
-                              env=env, stdout=subprocess.PIPE, stderr=subprocess.STDOUT, text=True)
+                              env=env, stdout=subprocess.PIPE, stderr=subprocess.STDOUT, text=True, timeout=1500)
         lines = proc.stdout.strip().splitlines()
         for line in lines[-8:]:
             print('   ', line[:300])
